@@ -3,7 +3,7 @@ import sys, os, itertools
 sys.path.insert(0, os.path.dirname(os.path.abspath(__file__)))
 from field_common import *
 
-OPS = {'w': 'e_wake', 'p': 'e_pad', 'c': 'e_csr'}
+OPS = {'w': 'e_wake', 'p': 'e_pad', 'c': 'e_csr', 'C': 'e_csr(other cutoff)'}
 
 def set_profile(ex, st, R, n, nb, tag):
     vs = []
@@ -11,8 +11,10 @@ def set_profile(ex, st, R, n, nb, tag):
         v = z3.Real('%s_%d' % (tag, i)); st.sym[R['proj0'] + 4 * i] = (4, 'f', v); vs.append(v)
     return vs
 
+CUT_ON = Fraction(f32(3e11))
 def do_op(ex, st, R, op, cutoff):
     if op == 'c': return ex.run1(st, 'e_csr', [R['field'], cutoff])
+    if op == 'C': return ex.run1(st, 'e_csr', [R['field'], Fraction(0) if cutoff else CUT_ON])      # an earlier CSR computation with the other cutoff setting
     return ex.run1(st, OPS[op], [R['field']])
 
 def observe(ex, st, R, op, n, nb, N):
@@ -39,7 +41,7 @@ def job_history(res, n, N, spacing, buckets, maxlen, cutoff_on):
         fft = UFFFT(plans); ex = Exec(mod, snap, RealDom(), {'fftwf_execute': fft}); st = State()
         set_profile(ex, st, R, n, nb, 'cur')
         st = do_op(ex, st, R, q, cutoff); fresh[q] = observe(ex, st, R, q, n, nb, N); account(res, ex, mod, [st])
-    hist = [h for L in range(1, maxlen + 1) for h in itertools.product('wpc', repeat=L)]
+    hist = [h for L in range(1, maxlen + 1) for h in itertools.product('wpcC', repeat=L)]
     for h in hist:
         fft = UFFFT(plans); ex = Exec(mod, snap, RealDom(), {'fftwf_execute': fft}); st = State()
         for j, op in enumerate(h):
@@ -48,7 +50,7 @@ def job_history(res, n, N, spacing, buckets, maxlen, cutoff_on):
             s2 = st.fork(); s2.frames = []
             cur = set_profile(ex, s2, R, n, nb, 'cur')
             s2 = do_op(ex, s2, R, q, cutoff); got = observe(ex, s2, R, q, n, nb, N); account(res, ex, mod, [s2])
-            def cex(m, h=h, q=q): return {'replay': 'history', 'n': n, 'N': N, 'spacing': spacing, 'buckets': list(buckets), 'history': list(h), 'query': q, 'cutoff': float(cutoff),
+            def cex(m, h=h, q=q): return {'replay': 'history', 'n': n, 'N': N, 'spacing': spacing, 'buckets': list(buckets), 'history': list(h), 'query': q, 'cutoff': float(cutoff), 'cutoff2': 0.0 if cutoff else float(CUT_ON),
                                             'profiles': [[(mval(m, z3.Real('old%d_%d' % (j, i))) or 0.0) for i in range(nb * n)] for j in range(len(h))], 'cur': [mval(m, v) for v in cur]}
             prove(res, 'n=%d N=%d buckets %s spacing %d: after history %s the result of %s for the current profile == that of a fresh object (%d cells)' % (n, N, list(buckets), spacing, ''.join(h), OPS[q], len(got)),
                   s2.pc, z3.Or(*[a != b for a, b in zip(got, fresh[q])]), key='history-%s-then-%s' % (h[-1], q), cex_fn=cex)
@@ -60,7 +62,7 @@ def job_history(res, n, N, spacing, buckets, maxlen, cutoff_on):
 def replayer(bld):
     def rp(path, c):
         n, N = c['n'], c['N']
-        base = {'n': n, 'N': N, 'spacing': c['spacing'], 'buckets': c['buckets'], 'cutoff': c.get('cutoff', 0.0)}
+        base = {'n': n, 'N': N, 'spacing': c['spacing'], 'buckets': c['buckets'], 'cutoff': c.get('cutoff', 0.0), 'cutoff2': c.get('cutoff2', 0.0)}
         # concrete profiles: model values may be 0 everywhere except a few cells; make the old profiles clearly different from the current one
         import random as _r; rr = _r.Random(5)
         olds = [[float(v) if v else rr.uniform(0.1, 1.0) for v in p] for p in c['profiles']]; cur = [float(v) if v else rr.uniform(0.1, 1.0) for v in c['cur']]
@@ -89,7 +91,7 @@ def main(tier):
         cfgs = [(4, N, 5, b, 3, c) for N in (8, 9, 11, 12, 16) for b in ((0,), (1,), (0, 1), (1, 0)) if max(b) * 5 + 4 <= N for c in (0, 1)]
         cfgs += [(3, 12, 4, (0, 2), 3, 0), (3, 12, 4, (2, 0, 1), 2, 0), (4, 15, 5, (2, 0), 3, 1), (5, 17, 6, (0, 2), 2, 0)]
     jobs = [(job_history, c) for c in cfgs]
-    chk.bounds = {'configurations (n, N, spacing, bucket numbers, history length, cutoff on)': cfgs, 'histories': 'every sequence of wakePotential / padBunchProfiles / updateCSR up to the stated length, each with its own arbitrary profile, followed by each of the three queries',
+    chk.bounds = {'configurations (n, N, spacing, bucket numbers, history length, cutoff on)': cfgs, 'histories': 'every sequence of wakePotential / padBunchProfiles / updateCSR (with the configured and with the other cutoff setting) up to the stated length, each with its own arbitrary profile, followed by each of the three queries',
                   'transform lengths': 'powers of two, composite and prime N up to 17'}
     chk.assumptions = ['fftwf_execute is an uninterpreted function of its entire input buffer (so any stale cell changes the result term); r2c writes cells 0..N/2 of its output, c2r reads cells 0..N/2 and leaves its input unchanged',
                        'that c2r input-preservation and "planning leaves the zero-initialised buffers zero" are calibrated natively for every configuration when the snapshot is taken; otherwise the check is inconclusive',
